@@ -15,7 +15,13 @@ PARSERS = {}
 
 def parser_for(stack):
     if stack not in PARSERS:
-        PARSERS[stack] = factory(stack)
+        if stack == 'CoAP-semantic':
+            # the eighth parser configuration: the CoAP header parser in semantic option mode (not reachable through factory())
+            from microschc.parser.parser import PacketParser
+            from microschc.protocol.coap import CoAPParser, CoAPOptionMode
+            PARSERS[stack] = PacketParser('CoAP-semantic', [CoAPParser(interpret_options=CoAPOptionMode.SEMANTIC)])
+        else:
+            PARSERS[stack] = factory(stack)
     return PARSERS[stack]
 
 
@@ -157,10 +163,11 @@ def parse_model_match(line):
     return ('OK', tuple(idx), exc)
 
 
-def case_match(batch, pd, rules, klass='match', extra=None):
+def case_match(batch, pd, rules, klass='match', extra=None, ruler=None):
+    """ruler: a long-lived Ruler over `rules` to reuse (state kept between calls must not matter)"""
     npd = n_pdesc(pd)
     nrs = [n_rule(r) for r in rules]
-    ruler = Ruler(rules)
+    ruler = Ruler(rules) if ruler is None else ruler
 
     def f():
         got = []
